@@ -50,6 +50,7 @@ type c33Sys struct {
 	execs    []atomic.Int64
 	execBy   []atomic.Int64 // run tag of the last execution
 	inflight []atomic.Int32
+	panics   []atomic.Bool // the query panics after it has resolved its children
 	mu       sync.Mutex
 	obs      []c33Obs
 	problems []string
@@ -115,6 +116,9 @@ func (q c33Query) Execute(t *incremental.Task) (uint64, error) {
 			runtime.Gosched()
 		}
 	}
+	if s.panics[q.id].Load() {
+		panic(fmt.Sprintf("verif: query %d panics", q.id))
+	}
 	return h, nil
 }
 
@@ -157,11 +161,11 @@ func (c *c33Case) reach(roots []int) map[int]bool {
 }
 
 func c33Check(c c33Case, r *ev.Rec) error {
-	sys := &c33Sys{c: &c, version: make([]atomic.Int64, c.N), execs: make([]atomic.Int64, c.N), execBy: make([]atomic.Int64, c.N), inflight: make([]atomic.Int32, c.N)}
+	sys := &c33Sys{c: &c, version: make([]atomic.Int64, c.N), execs: make([]atomic.Int64, c.N), execBy: make([]atomic.Int64, c.N), inflight: make([]atomic.Int32, c.N), panics: make([]atomic.Bool, c.N)}
 	exec := incremental.New(incremental.WithParallelism(int64(c.Par)))
 	cached := map[int]bool{} // model: memoized keys
 	var runTag int64
-	sawConcurrentShared, sawInnerEvict, sawRace := false, false, false
+	sawConcurrentShared, sawInnerEvict, sawRace, sawPanic := false, false, false, false
 	for step, op := range c.Ops {
 		switch op.Kind {
 		case "evict":
@@ -204,6 +208,79 @@ func c33Check(c c33Case, r *ev.Rec) error {
 				if !direct[k] {
 					sawInnerEvict = true // a memoized dependent went with the evicted key
 				}
+			}
+		case "panic":
+			// a query panics (after resolving its children); then the input is repaired, some keys are evicted, and
+			// everything is requested again: no trace of the aborted run may be served
+			pn := op.Keys[0]
+			sys.panics[pn].Store(true)
+			needed := c.reach(op.Roots[0])
+			var perr error
+			var escaped any
+			fin, dump := withWatchdog(20*time.Second, func() {
+				defer func() { escaped = recover() }()
+				qs := make([]incremental.Query[uint64], len(op.Roots[0]))
+				for i, rt := range op.Roots[0] {
+					qs[i] = c33Query{sys, rt}
+				}
+				runTag++
+				_, _, perr = incremental.Run(context.WithValue(context.Background(), c33RunTag{}, runTag), exec, qs...)
+			})
+			// Run returns as soon as its context is cancelled; queries of that Run that are still executing wind down
+			// in the background. Let them finish before the input is repaired, so that "never twice at the same
+			// time" keeps its meaning for the steps that follow.
+			for i := 0; i < 5000; i++ {
+				busy := false
+				for k := range sys.inflight {
+					busy = busy || sys.inflight[k].Load() > 0
+				}
+				if !busy {
+					break
+				}
+				time.Sleep(time.Millisecond)
+			}
+			sys.panics[pn].Store(false)
+			if !fin {
+				return fmt.Errorf("step %d: Run with a panicking query did not return\n%s", step, firstLinesOf(dump, 60))
+			}
+			if escaped != nil {
+				return fmt.Errorf("step %d: the query's panic escaped Run: %v", step, escaped)
+			}
+			if needed[pn] && !cached[pn] {
+				var pe *incremental.ErrPanic
+				if perr == nil || !errors.As(perr, &pe) {
+					return fmt.Errorf("step %d: query %d panicked during Run(%v) but Run returned %v\ncase %+v", step, pn, op.Roots[0], perr, c)
+				}
+				sawPanic = true
+			} else if perr != nil {
+				return fmt.Errorf("step %d: the panicking query %d is memoized or not needed, yet Run(%v) failed: %v\ncase %+v", step, pn, op.Roots[0], perr, c)
+			}
+			var keys []any
+			for _, k := range op.Keys[1:] {
+				sys.version[k].Add(1)
+				keys = append(keys, c33Key{sys, k})
+			}
+			exec.Evict(keys...)
+			all := make([]incremental.Query[uint64], c.N)
+			for i := range all {
+				all[i] = c33Query{sys, i}
+			}
+			runTag++
+			res, _, err := incremental.Run(context.WithValue(context.Background(), c33RunTag{}, runTag), exec, all...)
+			if err != nil {
+				return fmt.Errorf("step %d: Run after the repaired panic failed: %v\ncase %+v", step, err, c)
+			}
+			memo := map[int]uint64{}
+			for i := range all {
+				if res[i].Fatal != nil {
+					return fmt.Errorf("step %d: after query %d panicked once (input repaired, keys %v evicted), query %d is still served as failed: %v\ncase %+v", step, pn, op.Keys[1:], i, res[i].Fatal, c)
+				}
+				if want := sys.naive(i, memo); res[i].Value != want {
+					return fmt.Errorf("step %d: after query %d panicked once (input repaired, keys %v evicted), query %d returns %#x; a fresh computation gives %#x\ncase %+v", step, pn, op.Keys[1:], i, res[i].Value, want, c)
+				}
+			}
+			for i := 0; i < c.N; i++ {
+				cached[i] = true
 			}
 		case "race":
 			// Evict racing with a Run: Evict takes the executor's exclusive lock, so it lands before or after the
@@ -381,6 +458,9 @@ func c33Check(c c33Case, r *ev.Rec) error {
 	if sawRace {
 		labels = append(labels, "evict-racing-with-run")
 	}
+	if sawPanic {
+		labels = append(labels, "panic-then-repair")
+	}
 	labels = append(labels, fmt.Sprintf("par=%d", c.Par))
 	r.Case(ev.JSONFP(c), nt, labels...)
 	r.LabelN("steps", len(c.Ops))
@@ -432,6 +512,25 @@ func c33Gen(t *rapid.T) c33Case {
 				op.Roots = append(op.Roots, subset("croot", 1))
 			}
 			c.Ops = append(c.Ops, op)
+		case 8:
+			// Keys[0] panics; Keys[1:] (often its own children) are evicted afterwards
+			pn := gen.Uniform(t, n, "panicnode")
+			keys := []int{pn}
+			// the repaired input is the panicking query's: evicting it, or one of its children, must reach
+			// everything that saw the panic (the documented protocol; evicting unrelated keys only is not enough)
+			if len(c.Deps[pn]) > 0 && gen.Pct(t, 70, "evictchild") {
+				keys = append(keys, gen.Pick(t, c.Deps[pn], "child"))
+			} else {
+				keys = append(keys, pn)
+			}
+			if gen.Pct(t, 30, "more") {
+				keys = append(keys, subset("pevict", 0)...)
+			}
+			roots := subset("proot", 1)
+			if gen.Pct(t, 60, "rootabove") {
+				roots = append(roots, n-1)
+			}
+			c.Ops = append(c.Ops, c33Op{Kind: "panic", Roots: [][]int{roots}, Keys: keys})
 		case 7:
 			c.Ops = append(c.Ops, c33Op{Kind: "race", Roots: [][]int{subset("raceroot", 1)}, Keys: subset("racekeys", 1)})
 		default:
@@ -443,7 +542,7 @@ func c33Gen(t *rapid.T) c33Case {
 
 func TestC33_Histories(t *testing.T) {
 	ev.Run(t, ev.Spec[c33Case]{ID: "C33", Name: "Histories", Quick: 1500, Thorough: 60000,
-		Rule: "random DAGs of 2-8 deterministic queries (value = hash of the node's version and its children's values; children resolved in 1-3 Resolve batches; generated processor yields around the Resolve calls) on one long-lived executor with parallelism 1-8, driven by a generated history of 2-8 operations: Run(root set), 2-4 concurrent Runs released together, Evict(key set) after bumping those keys' versions, and Evict racing with a Run (after which everything is requested again and must be fresh); reference model: a set of memoized keys (a Run adds what it needed; Evict removes the keys and every memoized transitive dependent); oracle after every Run step: each root value equals a fresh recursive computation on the current versions; per-key execution counters advanced by exactly 1 for needed keys outside the model's memoized set and by 0 otherwise (also across concurrent Runs: one execution in total); no key executes twice at the same time; Result.Changed, as seen by every Resolve caller and on Run's own results, is true exactly when the key was computed in this step by the observing Run; race detector on; non-trivial = history with concurrent Runs sharing a key that had to be computed and an eviction that takes a memoized dependent with it; distinct by case",
+		Rule: "random DAGs of 2-8 deterministic queries (value = hash of the node's version and its children's values; children resolved in 1-3 Resolve batches; generated processor yields around the Resolve calls) on one long-lived executor with parallelism 1-8, driven by a generated history of 2-8 operations: Run(root set), 2-4 concurrent Runs released together, Evict(key set) after bumping those keys' versions, Evict racing with a Run, and a query that panics once after resolving its children followed by repair and eviction of (usually) one of its children (after either, everything is requested again and must be fresh and free of failures); reference model: a set of memoized keys (a Run adds what it needed; Evict removes the keys and every memoized transitive dependent); oracle after every Run step: each root value equals a fresh recursive computation on the current versions; per-key execution counters advanced by exactly 1 for needed keys outside the model's memoized set and by 0 otherwise (also across concurrent Runs: one execution in total); no key executes twice at the same time; Result.Changed, as seen by every Resolve caller and on Run's own results, is true exactly when the key was computed in this step by the observing Run; race detector on; non-trivial = history with concurrent Runs sharing a key that had to be computed and an eviction that takes a memoized dependent with it; distinct by case",
 		Gen:  c33Gen, Check: c33Check})
 }
 
@@ -460,8 +559,10 @@ type c34Case struct {
 }
 
 type c34Sys struct {
-	c     *c34Case
-	execs []atomic.Int64
+	c        *c34Case
+	execs    []atomic.Int64
+	inflight atomic.Int64
+	repaired atomic.Bool // the panicking queries have been repaired: nobody panics any more
 }
 
 type c34Key struct {
@@ -479,10 +580,12 @@ func (q c34Query) Key() any { return c34Key{q.sys, q.id} }
 func (q c34Query) Execute(t *incremental.Task) (int, error) {
 	s := q.sys
 	s.execs[q.id].Add(1)
+	s.inflight.Add(1)
+	defer s.inflight.Add(-1)
 	for i := 0; i < s.c.Yields[q.id]; i++ {
 		runtime.Gosched()
 	}
-	if s.c.Panics[q.id] {
+	if s.c.Panics[q.id] && !s.repaired.Load() {
 		panic(fmt.Sprintf("verif: query %d panics", q.id))
 	}
 	kids := s.c.Edges[q.id]
@@ -670,6 +773,46 @@ func c34Check(c c34Case, r *ev.Rec) error {
 			}
 		}
 	}
+	if panicReachable {
+		// the panicking queries are repaired (nothing was memoized for them, so nothing needs evicting) and the same
+		// roots are requested again: no trace of the aborted run may be served
+		for i := 0; i < 5000 && sys.inflight.Load() > 0; i++ {
+			time.Sleep(time.Millisecond)
+		}
+		sys.repaired.Store(true)
+		var res2 []incremental.Result[int]
+		var err2 error
+		fin, dump := withWatchdog(20*time.Second, func() {
+			res2, _, err2 = incremental.Run(context.Background(), exec, qs...)
+		})
+		if !fin {
+			return fmt.Errorf("the Run after the panicking queries were repaired did not return\ncase %+v\n%s", c, firstLinesOf(dump, 60))
+		}
+		if err2 != nil {
+			return fmt.Errorf("after the panicking queries were repaired, Run still fails: %v\ncase %+v", err2, c)
+		}
+		for i, rt := range c.Roots {
+			wantCycle := c.cycleFrom(rt)
+			var ce *incremental.ErrCycle
+			isCycle := res2[i].Fatal != nil && errors.As(res2[i].Fatal, &ce)
+			if wantCycle != isCycle || (!wantCycle && res2[i].Fatal != nil) {
+				return fmt.Errorf("after repair, root %d: cycle reachable = %v but its fatal error is %v (a result of the aborted run was memoized?)\ncase %+v", rt, wantCycle, res2[i].Fatal, c)
+			}
+			if !wantCycle {
+				var val func(i int) int
+				val = func(i int) int {
+					s := i
+					for _, k := range c.Edges[i] {
+						s += val(k)
+					}
+					return s
+				}
+				if want := val(rt); res2[i].Value != want {
+					return fmt.Errorf("after repair, root %d returns %d, want %d (a result of the aborted run was memoized?)\ncase %+v", rt, res2[i].Value, want, c)
+				}
+			}
+		}
+	}
 	// all permits are back: Par probe queries can be inside Execute at the same time
 	var arrive sync.WaitGroup
 	arrive.Add(c.Par)
@@ -777,7 +920,7 @@ func TestC34_Enum(t *testing.T) {
 		maxN, pars = 3, []int{1, 2, 3, 4}
 	}
 	ev.RunEnum(t, ev.Spec[c34Case]{ID: "C34", Name: "Enum",
-		Rule:  fmt.Sprintf("ALL directed graphs on <=%d query nodes (self-loops and cycles included) x panicking subsets {none, each single node, all} x parallelism %v x root sets {node 0, all nodes}; every query resolves all its children in one batch and propagates the first fatal error; oracle: Run returns (watchdog: deadlock only if all goroutines are parked), no panic escapes, a reachable panicking query => Run's error is an *ErrPanic with the injected value and the query is not in Keys(); otherwise no error, each root's fatal error is an *ErrCycle exactly when a cycle is reachable from it, the named cycle closes on itself and uses only edges of the graph, acyclic roots return the reference value; afterwards as many probe queries as the configured parallelism can be inside Execute simultaneously (all semaphore permits were released); race detector on; non-trivial = a cycle or a panic is reachable", maxN, pars),
+		Rule:  fmt.Sprintf("ALL directed graphs on <=%d query nodes (self-loops and cycles included) x panicking subsets {none, each single node, all} x parallelism %v x root sets {node 0, all nodes}; every query resolves all its children in one batch and propagates the first fatal error; oracle: Run returns (watchdog: deadlock only if all goroutines are parked), no panic escapes, a reachable panicking query => Run's error is an *ErrPanic with the injected value and the query is not in Keys(), and once the panicking queries are repaired a second Run of the same roots gives exactly the outcome of a panic-free graph (nothing of the aborted run is served); otherwise no error, each root's fatal error is an *ErrCycle exactly when a cycle is reachable from it, the named cycle closes on itself and uses only edges of the graph, acyclic roots return the reference value; afterwards as many probe queries as the configured parallelism can be inside Execute simultaneously (all semaphore permits were released); race detector on; non-trivial = a cycle or a panic is reachable", maxN, pars),
 		Check: c34Check}, true, func(yield func(c34Case) bool) { c34Enumerate(maxN, pars, yield) })
 }
 
